@@ -349,5 +349,34 @@ def r14_7(ctx):
 r14_7.rule_id = "R14.7"
 
 
-RULES = [r14_1, r14_2, r14_3, r14_4, r14_5, r14_6, r14_7]
-FLOORS = {"R14.1": 20, "R14.2": 30, "R14.3": 2, "R14.4": 1, "R14.5": 14, "R14.6": 20, "R14.7": 100}
+def r14_8(ctx):
+    """Feldman set: an operation never reports a result straight after its slot CAS failed - the slot changed under it, so it re-traverses
+    (idiom confirmed on every slot-CAS site of the HP and RCU implementations: insert, do_erase, do_erase_at, do_update, extract paths)"""
+    n = 0
+    for F in ctx.db.funcs.values():
+        if not re.match(r"cds::intrusive::FeldmanHashSet::", F.q) or F.kind in ("ctor", "dtor"):
+            continue
+        if not any((c.get("q") or "").endswith("compare_exchange_strong") or (c.get("q") or "").endswith("compare_exchange_weak") for c in Q.calls_in(F, r"compare_exchange_\w+$")):
+            continue
+        try:
+            ps = PathSim(F, bound=6000).run()
+        except PathBoundExceeded:
+            continue
+        for p in ps:
+            if p.outcome != "return":
+                continue
+            cas = [e for e in p.events if e.kind == "call" and (atomic_op(e) or "").startswith("compare_exchange") and e.obj is not None and "nodes" in sv_field_path(e.obj)]
+            if not cas:
+                continue
+            n += 1
+            w = _truth(p, cas[-1].val)
+            ctx.check(w is True, "R14.8", F, "a result is reported only when the operation's last slot CAS succeeded (a failed CAS leads back to the traversal)", cas[-1].node,
+                      detail="the slot was changed by another thread between the observation and the CAS; a result derived from the stale observation (e.g. 'not found' "
+                      "while a concurrent update replaced the item by one with the same key) has no linearization point. " + R, sig="retry-after-failed-cas")
+    if n < 6:
+        ctx.broken("Feldman slot CAS sites on returning paths not found (%d)" % n)
+r14_8.rule_id = "R14.8"
+
+
+RULES = [r14_1, r14_2, r14_3, r14_4, r14_5, r14_6, r14_7, r14_8]
+FLOORS = {"R14.1": 20, "R14.2": 30, "R14.3": 2, "R14.4": 1, "R14.5": 14, "R14.6": 20, "R14.7": 100, "R14.8": 6}
